@@ -57,6 +57,11 @@ def decode_all(tree, i):
     return vals
 
 
+# policy-state leaves carry the insertion number on top of an offset that float32 cannot represent exactly (2**24 + 1): a
+# buffer that stores policy states in another dtype than the one inserted corrupts them
+BIG = 2**24 + 1
+
+
 class Exec:
     """Executes a trace against ReplayBuffer and a deque model.  Row number n (n >= 1, plus an
     environment offset) is encoded as: observation leaves = 2n, next-observation leaves = 2n+1,
@@ -83,8 +88,8 @@ class Exec:
             float(n),
             bool(n & 1),
             bool(n & 1) and bool(n & 2),
-            CounterState(jnp.asarray(n, dtype=int)),
-            CounterState(jnp.asarray(n + 1, dtype=int)),
+            CounterState(jnp.asarray(BIG + n, dtype=int)),
+            CounterState(jnp.asarray(BIG + n + 1, dtype=int)),
         )
         self.model.append(n)
         if self.n > self.C:
@@ -98,8 +103,9 @@ class Exec:
             decode_all(buf.observations, i) == {2 * n}
             and decode_all(buf.next_observations, i) == {2 * n + 1}
             and decode_all(buf.actions, i) == {n}
-            and decode_all(buf.states, i) == {n}
-            and decode_all(buf.next_states, i) == {n + 1}
+            and int(np.asarray(buf.states.n)[i]) - BIG == n
+            and int(np.asarray(buf.next_states.n)[i]) - BIG == n + 1
+            and np.issubdtype(np.asarray(buf.states.n).dtype, np.integer)
             and bool(np.asarray(buf.dones)[i]) == bool(int(n) & 1)
             and bool(np.asarray(buf.timeouts)[i]) == (bool(int(n) & 1) and bool(int(n) & 2))
         )
@@ -111,8 +117,8 @@ class Exec:
             obs=sorted(decode_all(buf.observations, i)),
             next_obs=sorted(decode_all(buf.next_observations, i)),
             action=sorted(decode_all(buf.actions, i)),
-            states=sorted(decode_all(buf.states, i)),
-            next_states=sorted(decode_all(buf.next_states, i)),
+            states=[int(np.asarray(buf.states.n)[i]) - BIG, str(np.asarray(buf.states.n).dtype)],
+            next_states=[int(np.asarray(buf.next_states.n)[i]) - BIG],
         )
         return int(n)
 
